@@ -11,7 +11,7 @@ from fastavro import json_reader, json_writer, schemaless_reader, schemaless_wri
 
 import gen
 from core import Run
-from driver import run_batch
+from driver import run_batch, run_one
 from wire import to_wire, from_wire, canon, exc_class
 from props.common import scale, depth_of, schema_tags, load_corpus
 
@@ -155,12 +155,288 @@ def number_risks(s, v):
     return out
 
 
+def holds_union_member(s, t):
+    """the type is a record / array / map that holds a union-typed member at some depth (finding F27: such a
+    default is in the specification's unwrapped form but is decoded as if its unions were wrapped)"""
+    try:
+        named = {}
+        fastavro.parse_schema(copy.deepcopy(s), named)
+    except Exception:
+        named = {}
+    seen = set()
+
+    def inner(n, top):
+        if isinstance(n, str):
+            if n in named and n not in seen:
+                seen.add(n)
+                return inner(named[n], top)
+            return False
+        if isinstance(n, list):
+            return (not top) or any(inner(b, False) for b in n)
+        if isinstance(n, dict):
+            ty = n.get("type")
+            if ty == "record":
+                return any(inner(f["type"], False) for f in n.get("fields", []))
+            if ty == "array":
+                return inner(n["items"], False)
+            if ty == "map":
+                return inner(n["values"], False)
+            if isinstance(ty, (dict, list)):
+                return inner(ty, top)
+        return False
+    return inner(t, True)
+
+
+def spec_default(named, t, d):
+    """the value a field of type `t` takes from its JSON default `d`, per the specification: bytes and fixed from
+    code points, a union through its first branch, records / arrays / maps member by member"""
+    if isinstance(t, str):
+        if t in named:
+            return spec_default(named, named[t], d)
+        if t == "bytes":
+            return d.encode("iso-8859-1")
+        return d
+    if isinstance(t, list):
+        return spec_default(named, t[0], d)
+    ty = t.get("type")
+    if ty == "record":
+        out = {}
+        for f in t["fields"]:
+            if f["name"] in d:
+                out[f["name"]] = spec_default(named, f["type"], d[f["name"]])
+            else:
+                out[f["name"]] = spec_default(named, f["type"], f["default"])
+        return out
+    if ty == "array":
+        return [spec_default(named, t["items"], x) for x in d]
+    if ty == "map":
+        return {k: spec_default(named, t["values"], x) for k, x in d.items()}
+    if ty in ("fixed", "bytes"):
+        return d.encode("iso-8859-1")
+    if isinstance(ty, (dict, list)):
+        return spec_default(named, ty, d)
+    return d
+
+
 def has_empty_key(v):
     if isinstance(v, dict):
         return any(k == "" or has_empty_key(x) for k, x in v.items())
     if isinstance(v, (list, tuple)):
         return any(has_empty_key(x) for x in v)
     return False
+
+
+def _docs_of(text):
+    return [json.loads(l) for l in text.split("\n")] if text else []
+
+
+def _same_outcome(impl, model, impl_val):
+    """implementation and machine model agree: same values, or both raise (class not compared)"""
+    if "err" in impl or "perr" in impl:
+        return "ok" not in model
+    return "ok" in model and by_value(canon(model["ok"])) == by_value(canon(impl_val))
+
+
+def _del_random_key(r, doc):
+    doc = copy.deepcopy(doc)
+    spots = []
+
+    def walk(x):
+        if isinstance(x, dict):
+            for k in list(x):
+                spots.append((x, k))
+                walk(x[k])
+        elif isinstance(x, list):
+            for y in x:
+                walk(y)
+    walk(doc)
+    if not spots:
+        return None
+    d, k = r.choice(spots)
+    del d[k]
+    return doc
+
+
+def agrees_enc(s, records, wut, it):
+    """the machine model (which reproduces the known derailments of the grammar machine) does exactly what
+    json_writer did on this input — required before a failure is attributed to a recorded finding"""
+    mo = run_one({"op": "jm.enc", "schema": to_wire(s), "values": to_wire(list(records)), "nowut": not wut})
+    if "text" in it:
+        try:
+            return _same_outcome({}, mo, to_wire(_docs_of(it["text"])))
+        except Exception:
+            return False
+    return "ok" not in mo
+
+
+def agrees_dec(s, docs, back):
+    mo = run_one({"op": "jm.dec", "schema": to_wire(s), "docs": to_wire(docs)})
+    return _same_outcome(back, mo, {"l": back.get("ok", [])})
+
+
+def mtag(flag):
+    return ["machine-agrees"] if flag else ["machine-differs"]
+
+
+def corpus_cases(run):
+    """minimised past failures (fixed findings): text -> records, schema argument left intact; run first"""
+    for name, c in load_corpus("C15"):
+        s = copy.deepcopy(c["schema"])
+        case = {"schema": c["schema"], "text": c["text"], "tags": ["corpus", name]}
+        run.count(case, True, ["corpus"])
+        try:
+            got = [to_wire(x) for x in json_reader(io.StringIO(c["text"]), s)]
+        except Exception as e:  # noqa
+            run.fail(dict(case, got={"err": exc_class(e), "msg": repr(e)[:120]}), "corpus %s (%s): json_reader raised" % (name, c.get("finding")), kind="oracle")
+            continue
+        if by_value(canon({"l": got})) != by_value(canon({"l": [to_wire(x) for x in c["expect"]]})):
+            run.fail(dict(case, got=got), "corpus %s (%s): a field absent from the JSON text does not take its schema default" % (name, c.get("finding")), kind="oracle")
+        elif s != c["schema"]:
+            run.fail(dict(case, after=s), "corpus %s (%s): json_reader changed the caller's schema" % (name, c.get("finding")), kind="oracle")
+        mo = run_batch([{"op": "jm.dec", "schema": to_wire(c["schema"]), "docs": to_wire(_docs_of(c["text"]))}])[0]
+        if "ok" not in mo or by_value(canon(mo["ok"])) != by_value(canon({"l": got})):
+            run.fail(dict(case, model=mo, got=got), "correspondence: machine model differs from json_reader", kind="correspondence")
+
+
+def machine_correspondence(run, tier, seed):
+    """JM.encodeAll / JM.decodeAll (lean/Model/JsonMachine.lean: the grammar machine of io/parser.py with the
+    encoder's and decoder's state) against json_writer / json_reader on record LISTS (pending actions and the
+    Root symbol carry over from one record to the next), on every schema of the generator — including the
+    shapes on which the machine derails (the model derails in the same way) — and on texts with keys removed."""
+    import random
+    n = scale(tier, 500)
+    cases = []
+    for i in range(n):
+        g = gen.Gen(seed * 15000029 + i, logical=False, bytes_defaults=False, hints=(i % 4 == 0), tuple_seq=False, big=False,
+                    recursion=(i % 3 == 0), zero_field=(i % 2 == 0))
+        try:
+            s, ctx = g.top_schema()
+            data = [g.datum(s, ctx) for _ in range(1 + i % 3)]
+        except Exception:
+            continue
+        cases.append((s, data, i))
+    enc = run_batch([{"op": "jm.enc", "schema": to_wire(s), "values": to_wire(list(d)), "nowut": (i % 7 == 3)} for s, d, i in cases])
+    dreqs, dmeta = [], []
+    for (s, data, i), mo in zip(cases, enc):
+        it = impl_json(s, data, wut=(i % 7 != 3))
+        case = {"schema": s, "values": to_wire(list(data)), "tags": ["machine", "records:%d" % len(data)] + sorted(schema_risks(s))}
+        run.count(case, depth_of(s) >= 2, ["machine:enc"])
+        run.cov["traces_validated_against_impl"] += 1
+        docs = None
+        if "text" in it:
+            try:
+                docs = _docs_of(it["text"])
+            except Exception:
+                docs = None
+        if "text" in it and docs is None:
+            run.tag("machine:impl-text-unparseable")
+            if "ok" in mo:
+                run.fail(dict(case, text=it["text"][:300], model=mo), "correspondence: machine model differs from json_writer", kind="correspondence")
+            continue
+        if not _same_outcome(it if "text" not in it else {}, mo, to_wire(docs) if docs is not None else None):
+            run.fail(dict(case, impl=(it if "text" not in it else it["text"][:400]), model=mo),
+                     "correspondence: machine model differs from json_writer", kind="correspondence")
+            continue
+        run.tag("machine:enc-" + ("ok" if "text" in it else "raises"))
+        if docs is None or i % 7 == 3:
+            continue
+        r = random.Random(seed * 31 + i)
+        variants = [docs]
+        if docs and r.random() < 0.7:
+            d2 = [(_del_random_key(r, d) or d) if r.random() < 0.8 else d for d in docs]
+            variants.append(d2)
+        for dv in variants:
+            dreqs.append({"op": "jm.dec", "schema": to_wire(s), "docs": to_wire(dv)})
+            dmeta.append((case, s, dv))
+    res = run_batch(dreqs) if dreqs else []
+    for (case, s, dv), mo in zip(dmeta, res):
+        back = impl_read(s, "\n".join(json.dumps(d) for d in dv))
+        run.cov["evaluations"] += 1
+        if not _same_outcome(back, mo, {"l": back.get("ok", [])}):
+            run.fail(dict(case, docs=dv, impl=back, model=mo, tags=case["tags"] + ["machine-dec"]),
+                     "correspondence: machine model differs from json_reader", kind="correspondence")
+        else:
+            run.tag("machine:dec-" + ("ok" if "ok" in back else "raises"))
+
+
+DEFAULT_FIELDS = [
+    ("i", "int", 7), ("s", "string", "dflt"), ("b", "bytes", "\\u00ff\\u0000"), ("d", "double", 1.5),
+    ("xs", {"type": "array", "items": "int"}, [1, 2, 3]), ("m", {"type": "map", "values": "long"}, {"k": 1, "l": 2}),
+    ("e", {"type": "enum", "name": "E0", "symbols": ["A", "B"]}, "B"), ("e2", "E0", "A"),
+    ("f", {"type": "fixed", "name": "F0", "size": 2}, "ab"), ("f2", "F0", "cd"),
+    ("r", {"type": "record", "name": "Sub", "fields": [{"name": "x", "type": "int"}, {"name": "ys", "type": {"type": "array", "items": "string"}}]},
+     {"x": 1, "ys": ["p", "q"]}),
+    ("r2", "Sub", {"x": 2, "ys": []}),
+    ("u", ["null", "int"], None), ("u2", ["int", "null"], 5), ("u3", [{"type": "array", "items": "int"}, "null"], [4, 5]),
+    ("u4", ["Sub", "null"], {"x": 3, "ys": ["z"]}),
+    ("n", "null", None), ("t", "boolean", True),
+    ("mm", {"type": "map", "values": {"type": "array", "items": "int"}}, {"a": [1], "b": []}),
+]
+
+
+def defaults_family(run, tier, seed):
+    """a field absent from the JSON text takes its schema default — for every kind of field type (containers,
+    named types by reference, unions), in the first and in later records of one text, and the caller's schema is
+    left as it was.  Expected value: the specification's reading of the default (spec_default)."""
+    import random
+    n = scale(tier, 120)
+    for i in range(n):
+        r = random.Random(seed * 77 + i)
+        k = r.randint(2, 6)
+        picked = []
+        names = set()
+        pool = list(DEFAULT_FIELDS)
+        r.shuffle(pool)
+        for name, ty, dflt in pool:
+            if len(picked) >= k:
+                break
+            picked.append((name, ty, dflt))
+        # a by-name use brings its definition along
+        need = {"E0": "e", "F0": "f", "Sub": "r"}
+        for name, ty, dflt in list(picked):
+            dep = need.get(ty if isinstance(ty, str) else (ty[0] if isinstance(ty, list) and isinstance(ty[0], str) else None))
+            if dep and dep not in {f[0] for f in picked}:
+                picked.append(next(f for f in DEFAULT_FIELDS if f[0] == dep))
+        # definitions must precede by-name uses: put definitions first
+        order = {"e": 0, "f": 0, "r": 0}
+        picked.sort(key=lambda f: order.get(f[0], 1))
+        have = {f[0] for f in picked}
+        fields = [{"name": "id", "type": "int"}]
+        ok = True
+        for name, ty, dflt in picked:
+            if ty == "E0" and "e" not in have or ty == "F0" and "f" not in have or (ty == "Sub" or ty == ["Sub", "null"]) and "r" not in have:
+                ok = False
+            fields.append({"name": name, "type": copy.deepcopy(ty), "default": copy.deepcopy(dflt)})
+        if not ok:
+            continue
+        s = {"type": "record", "name": "Top", "fields": fields}
+        nrec = r.randint(1, 3)
+        recs = []
+        for j in range(nrec):
+            recs.append({"id": j})        # every defaulted field omitted
+        before = copy.deepcopy(s)
+        # expected: the specification's reading of the defaults
+        named = {}
+        fastavro.parse_schema(copy.deepcopy(s), named)
+        exp = []
+        for rec in recs:
+            full = dict(rec)
+            for f in s["fields"][1:]:
+                full[f["name"]] = spec_default(named, f["type"], f["default"])
+            exp.append(to_wire(full))
+        text = "\n".join(json.dumps(rec) for rec in recs)
+        case = {"schema": before, "text": text, "tags": ["absent-field", "defaults-family"] + sorted(f[0] for f in picked)}
+        run.count(case, True, ["defaults-family"])
+        try:
+            ps = fastavro.parse_schema(s)
+            got = {"ok": [to_wire(x) for x in json_reader(io.StringIO(text), ps)]}
+        except Exception as e:  # noqa
+            got = {"err": exc_class(e), "msg": repr(e)[:120]}
+        if "ok" not in got or by_value(canon({"l": got["ok"]})) != by_value(canon({"l": exp})):
+            run.fail(dict(case, got=got, expected=exp), "a field absent from the JSON text does not take its schema default", kind="oracle")
+            continue
+        if s != before:
+            run.fail(dict(case, after=s), "json_reader changed the caller's schema (defaults consumed)", kind="oracle")
 
 
 def run(tier, seed):
@@ -208,7 +484,7 @@ def run(tier, seed):
             it = impl_json(s, [v])
             if "text" not in it:
                 case["impl"] = it
-                run.fail(case, "conforming datum: json_writer raised %s" % it.get("err"), kind="oracle")
+                run.fail(dict(case, tags=tags + mtag(agrees_enc(s, [v], True, it))), "conforming datum: json_writer raised %s" % it.get("err"), kind="oracle")
                 continue
             try:
                 doc = json.loads(it["text"])
@@ -218,7 +494,7 @@ def run(tier, seed):
                 continue
             if by_value(canon(to_wire(doc))) != by_value(canon(sp["ok"])):
                 case["text"], case["spec"] = it["text"][:400], sp
-                run.fail(case, "JSON text is not the specification's JSON encoding of the datum", kind="oracle")
+                run.fail(dict(case, tags=tags + mtag(agrees_enc(s, [v], True, it))), "JSON text is not the specification's JSON encoding of the datum", kind="oracle")
                 continue
             if "ok" in mo and by_value(canon(mo["ok"])) != by_value(canon(to_wire(doc))):
                 case["text"], case["model"] = it["text"][:400], mo
@@ -234,19 +510,19 @@ def run(tier, seed):
                 binv = None
             if "ok" not in back or len(back["ok"]) != 1:
                 case["text"], case["back"] = it["text"][:400], back
-                run.fail(case, "json_reader does not return the written record", kind="oracle")
+                run.fail(dict(case, tags=tags + mtag(agrees_dec(s, [doc], back))), "json_reader does not return the written record", kind="oracle")
                 continue
             if "ok" in wr:
                 run.tag("read-back:theorem-domain")
                 if by_value(canon(back["ok"][0])) != by_value(canon(wr["ok"])):
                     case["json_value"], case["written"] = back["ok"][0], wr["ok"]
-                    run.fail(case, "json_reader does not return the record as written (Spec.written)", kind="oracle")
+                    run.fail(dict(case, tags=tags + mtag(agrees_dec(s, [doc], back))), "json_reader does not return the record as written (Spec.written)", kind="oracle")
                     continue
             else:
                 run.tag("read-back:outside-theorem-domain")
             if binv is not None and by_value(canon(back["ok"][0])) != by_value(canon(binv)):
                 case["json_value"], case["binary_value"] = back["ok"][0], binv
-                run.fail(case, "record decoded from JSON differs from the one decoded from the binary encoding", kind="oracle")
+                run.fail(dict(case, tags=tags + mtag(agrees_dec(s, [doc], back))), "record decoded from JSON differs from the one decoded from the binary encoding", kind="oracle")
                 continue
             dec_reqs.append({"op": "json.dec", "schema": to_wire(s), "json": to_wire(doc)})
             dec_meta.append((case, back["ok"][0]))
@@ -255,26 +531,32 @@ def run(tier, seed):
             run.cov["evaluations"] += 1
             if "text" not in it2:
                 case["impl"] = it2
-                run.fail(dict(case, tags=tags + ["nowut"]), "conforming datum: json_writer(write_union_type=False) raised %s" % it2.get("err"), kind="oracle")
-            # absent fields take their defaults
-            if isinstance(s, dict) and s.get("type") == "record" and isinstance(doc, dict):
+                run.fail(dict(case, tags=tags + ["nowut"] + mtag(agrees_enc(s, [v], False, it2))), "conforming datum: json_writer(write_union_type=False) raised %s" % it2.get("err"), kind="oracle")
+            # absent fields take their defaults (the specification's reading of the default: spec_default)
+            if isinstance(s, dict) and s.get("type") == "record" and isinstance(doc, dict) and isinstance(v, dict):
                 for f in s["fields"]:
                     if "default" in f and f["name"] in doc:
                         d2 = dict(doc)
                         del d2[f["name"]]
                         b2 = impl_read(s, json.dumps(d2))
-                        v2 = dict(v) if isinstance(v, dict) else None
                         run.cov["evaluations"] += 1
                         run.tag("absent-field")
-                        if v2 is None:
+                        try:
+                            named = {}
+                            fastavro.parse_schema(copy.deepcopy(s), named)
+                            dv = spec_default(named, f["type"], copy.deepcopy(f["default"]))
+                        except Exception:
+                            run.tag("absent-field:default-undefined")
                             break
-                        v2.pop(f["name"], None)
-                        it3 = impl_json(s, [v2])
-                        exp = impl_read(s, it3["text"]) if "text" in it3 else None
-                        if exp and "ok" in exp and ("ok" not in b2 or by_value(canon(b2["ok"][0])) != by_value(canon(exp["ok"][0]))):
-                            run.fail(dict(case, field=f["name"], got=b2, expected=exp, tags=tags + ["absent-field"]),
+                        exp_rec = {"d": [[k_, (to_wire(dv) if from_wire(k_) == f["name"] else x_)] for k_, x_ in back["ok"][0]["d"]]}
+                        if "ok" not in b2 or by_value(canon(b2["ok"][0])) != by_value(canon(exp_rec)):
+                            extra = ["absent-field"] + (["default-holds-union-member"] if holds_union_member(s, f["type"]) else [])
+                            run.fail(dict(case, field=f["name"], got=b2, expected=exp_rec, tags=tags + extra + mtag(agrees_dec(s, [d2], b2))),
                                      "a field absent from the JSON text does not take its schema default", kind="oracle")
                         break
+    corpus_cases(run)
+    machine_correspondence(run, tier, seed)
+    defaults_family(run, tier, seed)
     res = run_batch(dec_reqs) if dec_reqs else []
     for (case, back), r in zip(dec_meta, res):
         if "ok" not in r or by_value(canon(r["ok"])) != by_value(canon(back)):
